@@ -201,6 +201,9 @@ func checkC17(c *Ctx) {
 			if !wraps && !isConstNamed(ret, "ErrAlreadyInvalidated") {
 				r.Bad("R17.4", name, "reject-error", c.Pos(p.RetPos), "a rejected call must return an error wrapping ErrAlreadyInvalidated", shortTrace(p))
 			}
+			if cbField == nil || nilTri(p, cbField) != triFalse {
+				r.Bad("R17.4", name, "reject-without-callbacks-test", c.Pos(p.RetPos), "a call is rejected as already invalidated on a path that does not establish that callbacks are registered: with none it must report ErrNothingToInvalidate", shortTrace(p))
+			}
 			if since == nil || skip == nil || p.Rel(since, skip)&pw.RGt != 0 {
 				r.Bad("R17.2", name, "reject-without-reason", c.Pos(p.RetPos), "a call is rejected on a path where since(lastRun) >= SkipInterval is possible", shortTrace(p))
 			}
@@ -242,6 +245,11 @@ func checkC17(c *Ctx) {
 			return true
 		}
 		sliceStr := types.ExprString(lenCall.Args[0])
+		if _, isLocal := ast.Unparen(lenCall.Args[0]).(*ast.Ident); !isLocal {
+			// len(i.Callbacks) and i.Callbacks[n] are re-read on every iteration: a callback that replaces the list shifts the
+			// remaining ones under the running index (range evaluates the list once)
+			r.Bad("R17.3", name, "callbacks-reread-in-loop", c.Pos(fs.Pos()), "the index loop re-reads the Callbacks field on every iteration instead of ranging over the list as it was when the call was accepted", nil)
+		}
 		callsElem := false
 		ast.Inspect(fs.Body, func(m ast.Node) bool {
 			if call, ok := m.(*ast.CallExpr); ok {
